@@ -180,6 +180,12 @@ func (r *Result) Write(t TB) {
 	defer r.mu.Unlock()
 	r.Complete = true
 	r.WallS = time.Since(r.start).Seconds()
+	// A monitor whose test function failed (t.Fatalf / t.Errorf of the harness itself, a
+	// panic recovered by the testing package) without recording a violation did not decide
+	// anything: that is a broken or inconclusive run, never "held".
+	if f, ok := t.(interface{ Failed() bool }); ok && f.Failed() && len(r.Violations) == 0 && len(r.Inconclusive) == 0 {
+		r.Inconclusive = append(r.Inconclusive, "the monitor's test function failed without recording a violation (harness error, see test.log)")
+	}
 	if r.Samples == nil {
 		r.Samples = []any{}
 	}
